@@ -1,7 +1,7 @@
 (* Boolean comparison functions for the C07 correspondence check (definitions only). *)
 From Coq Require Import List ZArith String Bool Arith.
 Import ListNotations.
-From Dagrt Require Import Lang TestOracle LangCheck Sched SchedCheck Transform TransformSem.
+From Dagrt Require Import Lang TestOracle LangCheck Sched SchedCheck Transform TransformSem TransformSide.
 
 Definition str_set_eqb (a b : list string) : bool :=
   forallb (fun x => smem x b) a && forallb (fun x => smem x a) b.
@@ -77,7 +77,7 @@ Record case7 := {
 }.
 
 Section Chk.
-  Variables del_guarded lhs_sub_reads loop_bound_reads seed_node_vars fci_passes_cond ite_flag_first : bool.
+  Variables del_guarded lhs_sub_reads loop_bound_reads seed_node_vars sd_sorted fci_passes_cond ite_flag_first : bool.
 
   Fixpoint all2 {A B} (f : A -> B -> bool) (a : list A) (b : list B) : bool :=
     match a, b with
@@ -87,7 +87,7 @@ Section Chk.
     end.
 
   Definition chk_sel (c : case7) (s : sel7) : bool :=
-    match run_passes lhs_sub_reads loop_bound_reads seed_node_vars fci_passes_cond ite_flag_first
+    match run_passes lhs_sub_reads loop_bound_reads seed_node_vars sd_sorted fci_passes_cond ite_flag_first
                      (k_ords c) (k_passes s) (k_tree c), k_out s with
     | TOk t', XTree t'' =>
         tree_eqb t' t''
@@ -102,4 +102,36 @@ Section Chk.
   Definition chk7 (c : case7) : bool :=
     all2 (fun st x => run_matches (k_univ c) (run test_F del_guarded (k_tree c) st) x) (k_stores c) (k_inruns c)
     && forallb (chk_sel c) (k_sels c).
+
+  (* ---- the side conditions of the theorems (props/C07.v) on this case ---- *)
+  Definition all_leaf (p : tstmt -> bool) (t : tree) : bool := forallb p (tstmts t).
+
+  (* the input meets the side conditions of all four per-pass theorems *)
+  Definition hyp7 (c : case7) : bool :=
+    all_leaf sd_leaf (k_tree c) && all_leaf fai_leaf (k_tree c)
+    && all_leaf fci_leaf (k_tree c) && all_leaf ite_leaf (k_tree c).
+
+  Definition after (c : case7) (names : list string) : tres tree :=
+    run_passes lhs_sub_reads loop_bound_reads seed_node_vars sd_sorted fci_passes_cond ite_flag_first
+               (k_ords c) names (k_tree c).
+
+  (* for the pipeline the call isolator also sees the arguments that the argument isolator turned into
+     assignments of their own: no call in a conditionally evaluated position of ANY statement kind *)
+  Definition pipe_leaf (s : tstmt) : bool :=
+    sd_leaf s && fai_leaf s && ite_leaf s && forallb (fun e => fci_ok e && arity_ok e) (kexprs (tkd s)).
+  Definition hypp7 (c : case7) : bool := all_leaf pipe_leaf (k_tree c).
+
+  (* ... then the three intermediate trees of the pipeline `order` meet the side conditions of the
+     pass applied to them (hypotheses of C07_pipeline_partial; that the passes preserve them is not proved) *)
+  Definition pres7 (order : list string) (c : case7) : bool :=
+    if hypp7 c then
+      match order with
+      | [p1; p2; p3; _] =>
+          match after c [p1], after c [p1; p2], after c [p1; p2; p3] with
+          | TOk t1, TOk t2, TOk t3 => all_leaf fai_leaf t1 && all_leaf fci_leaf t2 && all_leaf ite_leaf t3
+          | _, _, _ => true
+          end
+      | _ => true
+      end
+    else true.
 End Chk.
